@@ -10,6 +10,9 @@ import random
 from harness import common as C
 
 SX = C.to_sx
+# 1 (default): model and oracle follow the repaired code (fix-F1..F4); 0: the code before the repairs
+FIXED = int(os.environ.get("VERIF_C05_FIXED", "1"))
+os.environ["VERIF_C05_FIXED"] = str(FIXED)      # the OCaml driver reads it
 
 
 def sx_s(s):
@@ -221,6 +224,51 @@ def impl_tsv_write(strip, name, attrs, desc):
     w._write_tag_entry(StubEntry(name, attrs, desc), None, 1)
     r = w._tag_rows[0]
     return [r[k.hed_id], r[k.name], r[k.attributes], r[k.description]]
+
+
+_xml_loader = None
+
+
+def impl_xml_desc(text):
+    """Description part of SchemaLoaderXML._parse_node on <node><name>X</name><description>text</description></node>."""
+    global _xml_loader
+    import xml.etree.ElementTree as ET
+    from hed.schema.schema_io.xml2schema import SchemaLoaderXML
+    from hed.schema.hed_schema import HedSchema
+    from hed.schema.hed_schema_constants import HedSectionKey
+    if _xml_loader is None:
+        ld = object.__new__(SchemaLoaderXML)
+        ld._schema = HedSchema()
+        ld.name = "stub"
+        _xml_loader = ld
+    el = ET.Element("node")
+    ET.SubElement(el, "name").text = "X"
+    if text:
+        ET.SubElement(el, "description").text = text
+    return _xml_loader._parse_node(el, HedSectionKey.Tags).description
+
+
+def impl_tsv_write_entry(strip, incl, name, attrs, desc):
+    """Schema2DF._write_entry for a unit class row."""
+    from hed.schema.schema_io.schema2df import Schema2DF
+    from hed.schema.hed_schema_constants import HedSectionKey
+    import hed.schema.hed_schema_df_constants as k
+
+    class W(Schema2DF):
+        def _get_subclass_of(self, tag_entry):
+            return "HedUnitClass"
+
+        def _get_tag_equivalent_to(self, tag_entry):
+            return ""
+    w = W()
+    w._initialize_output()
+    w._strip_out_in_library = strip
+    w._write_entry(StubEntry(name, attrs, desc, section_key=HedSectionKey.UnitClasses), None, incl)
+    df = w.output[k.UNIT_CLASS_KEY]
+    r = df.iloc[0]
+    d = r[k.description]
+    d = None if (d is None or d != d or d == "") else d
+    return [r[k.hed_id], r[k.name], r[k.attributes], d]
 
 
 # ---------------------------------------------------------------- traversal
@@ -521,9 +569,14 @@ def g_desc(rng, wide=False):
     n = rng.randint(1, 30)
     s = "".join(rng.choice(TEXT_CH) for _ in range(n))
     s = s.replace("<n", "<m").replace("</", "<:")
+    if rng.random() < 0.08:
+        k = rng.randint(0, len(s))
+        s = s[:k] + " extend here " + s[k:]       # inside the class since the repair of C05-F3
     if not wide:
         s = s.strip() or "d"
-        s = s.replace("extend here", "extendhere").replace("&#8203;", "")
+        if not FIXED:
+            s = s.replace("extend here", "extendhere")
+        s = s.replace("&#8203;", "")
     elif rng.random() < 0.4:
         k = rng.randint(0, len(s))
         s = s[:k] + rng.choice(["[", "]", "{", "}", " ", "\n", "<nowiki>", "</nowiki>", "extend here", "&#8203;", "<", "'''", " ", "</n", "<n"]) + s[k:]
